@@ -106,14 +106,18 @@ class Edge:
         self.outs, self.ins, self.implicit, self.order = [], [], [], []
         self.env = None
 
-    def binding(self, name, state):
+    def binding(self, name, state, raw=False):
+        """raw: $in / $out are not shell-escaped (Ninja evaluates `depfile`,
+        `rspfile` and `dyndep` that way: they are file names, not shell text)"""
+        esc = (lambda p: p) if raw else shell_escape
+
         def lookup(var):
             if var == 'in':
-                return ' '.join(shell_escape(p) for p in self.ins)
+                return ' '.join(esc(p) for p in self.ins)
             if var == 'in_newline':
-                return '\n'.join(shell_escape(p) for p in self.ins)
+                return '\n'.join(esc(p) for p in self.ins)
             if var == 'out':
-                return ' '.join(shell_escape(p) for p in self.outs)
+                return ' '.join(esc(p) for p in self.outs)
             if var in self.env.vars:
                 return self.env.vars[var]
             rule = state.rules.get(self.rule, {})
@@ -271,9 +275,12 @@ def mtime(p):
 
 def parse_depfile(text):
     text = text.replace('\\\n', ' ')
-    if ':' not in text:
+    # the target ends at the first colon that is followed by blank space or
+    # the end of the text (a colon inside a file name is not a separator)
+    m = re.search(r':(?=[ \t\n]|$)', text)
+    if not m:
         return []
-    body = text.split(':', 1)[1]
+    body = text[m.end():]
     out, cur, i = [], [], 0
     while i < len(body):
         c = body[i]
@@ -365,7 +372,7 @@ class Builder:
                 # a depfile without `deps =` is read every time the edge is
                 # examined (this is how the regenerate rule watches the
                 # directories find_files walked)
-                df = e.binding('depfile', self.state)
+                df = e.binding('depfile', self.state, raw=True)
                 dfdeps = []
                 if df and not e.binding('deps', self.state) and \
                         os.path.exists(df):
@@ -430,7 +437,7 @@ class Builder:
                 sys.exit(1)
             raise BuildFailed()
         self.cmdlog[e.outs[0]] = cmd
-        depfile = e.binding('depfile', self.state)
+        depfile = e.binding('depfile', self.state, raw=True)
         if depfile and e.binding('deps', self.state) == 'gcc':
             try:
                 self.deps[e.outs[0]] = parse_depfile(open(depfile).read())
@@ -449,7 +456,7 @@ def clean(state):
         if e.rule == 'phony' or e.binding('generator', state):
             continue
         files = list(e.outs)
-        df = e.binding('depfile', state)
+        df = e.binding('depfile', state, raw=True)
         if df:
             files.append(df)
         for f in files:
